@@ -105,6 +105,14 @@ pub fn bundles() -> Vec<(String, SpendBundle)> {
             CoinSpend::new(Coin::new(p.into(), ph.into(), 1), Program::new(puzzle.as_slice().into()), vec![0x80u8].into())
         }).collect(), Signature::default())));
     }
+    // a puzzle using an operator no dialect assigns: (i (15) (q . ()) 1) - the lenient dialect runs it as the identity puzzle
+    {
+        let puzzle: Vec<u8> = vec![0xff, 0x03, 0xff, 0xff, 0x0f, 0x80, 0xff, 0xff, 0x01, 0x80, 0xff, 0x01, 0x80];
+        let mut a = clvmr::Allocator::new();
+        let ph: [u8; 32] = clvmr::serde::node_from_bytes(&mut a, &puzzle).map(|p| clvm_utils::tree_hash(&a, p).to_bytes()).unwrap_or([0; 32]);
+        v.push(("unknown-operator".into(), SpendBundle::new(vec![
+            CoinSpend::new(Coin::new([1; 32].into(), ph.into(), 1000), Program::new(puzzle.into()), solution_for(1000, 10).into())], Signature::default())));
+    }
     // a spend whose own assertion fails (rejected everywhere)
     v.push(("wrong-my-amount".into(), SpendBundle::new(vec![spend(1, 1000, solution_for(999, 1))], Signature::default())));
     // a second spend that declares the first one's puzzle hash but reveals another program: (q . ()) - rejected everywhere, in either order
@@ -127,12 +135,14 @@ fn summary(c: &OwnedSpendBundleConditions) -> String {
     format!("cc={} rem={} add={} fee={} {}", c.condition_cost, c.removal_amount, c.addition_amount, c.reserve_fee, per.join(""))
 }
 
-pub fn check_bundle(name: &str, b: &SpendBundle, interned: bool) -> (u64, Vec<(String, String)>) {
+pub fn check_bundle(name: &str, b: &SpendBundle, interned: bool, strict: bool) -> (u64, Vec<(String, String)>) {
     let max = TEST_CONSTANTS.max_block_cost_clvm;
     let cpb = TEST_CONSTANTS.cost_per_byte;
-    let mut flags = MEMPOOL_MODE | ConsensusFlags::DONT_VALIDATE_SIGNATURE;
+    // strict: the mempool's flag set; otherwise the flags of block validation (the puzzles then run in the lenient dialect on
+    // BOTH paths: run_spendbundle takes its dialect from the flags it is given, like run_block_generator2)
+    let mut flags = if strict { MEMPOOL_MODE | ConsensusFlags::DONT_VALIDATE_SIGNATURE } else { ConsensusFlags::DONT_VALIDATE_SIGNATURE };
     if interned { flags |= ConsensusFlags::INTERNED_GENERATOR; }
-    let tag = if interned { "interned" } else { "plain-flags" };
+    let tag = match (strict, interned) { (true, false) => "plain-flags", (true, true) => "interned", (false, false) => "consensus-flags", (false, true) => "consensus-interned" };
     let mut n = 0u64;
     let mut fails = vec![];
     let mut a = make_allocator(ConsensusFlags::LIMIT_HEAP);
@@ -164,10 +174,15 @@ pub fn check_bundle(name: &str, b: &SpendBundle, interned: bool) -> (u64, Vec<(S
                        ("two-spends", true), ("wrong-my-amount", false), ("forged-second-reveal", false), ("forged-first-reveal", false), ("forged-third-reveal", false),
                        ("above-u64-minting", false), ("above-u64-exact", true), ("above-u64-fee-covered", true), ("above-u64-fee-short", false), ("minting", false), ("empty", true),
                        ("last-generic", true), ("last-aggsig", true), ("last-message", true), ("last-create-coin", true)] {
-        if name == bn {
+        if name == bn && strict {
             n += 1;
             if mem.is_ok() != want { fails.push((format!("{name}/{tag}/mempool-verdict"), format!("run_spendbundle accepted = {}, the rules say {want}", mem.is_ok()))); }
         }
+    }
+    if name == "unknown-operator" {
+        // an operator the lenient dialect tolerates and the strict one refuses: the verdict follows the flags given
+        n += 1;
+        if mem.is_ok() == strict { fails.push((format!("{name}/{tag}/dialect-verdict"), format!("run_spendbundle accepted = {} with {} flags", mem.is_ok(), if strict { "mempool" } else { "block-validation" }))); }
     }
     // C02: every reported spend is the coin (parent, tree hash of the REVEALED puzzle, amount) of one coin spend of the bundle
     if let Ok(m) = &mem {
@@ -245,11 +260,17 @@ pub fn check_bundle(name: &str, b: &SpendBundle, interned: bool) -> (u64, Vec<(S
     (n, fails)
 }
 
+/// bundles that are also compared under block-validation flags (no MEMPOOL_MODE)
+const CONSENSUS_MODE_BUNDLES: &[&str] = &["unknown-operator", "two-spends", "amount-0x8000000000000000", "last-aggsig", "last-message", "empty", "wrong-my-amount", "spends-6001"];
+
 pub fn paths_ground() -> EvalResult {
     let mut res = EvalResult { obligations: 0, discharged: 0, failures: vec![], samples: vec![], exhaustive: true };
     let handles: Vec<_> = bundles().into_iter().map(|(name, b)| std::thread::spawn(move || {
         let mut n = 0; let mut f = vec![];
-        for interned in [false, true] { let (k, ff) = check_bundle(&name, &b, interned); n += k; f.extend(ff); }
+        for interned in [false, true] { let (k, ff) = check_bundle(&name, &b, interned, true); n += k; f.extend(ff); }
+        if CONSENSUS_MODE_BUNDLES.contains(&name.as_str()) {
+            for interned in [false, true] { let (k, ff) = check_bundle(&name, &b, interned, false); n += k; f.extend(ff); }
+        }
         (n, f)
     })).collect();
     for h in handles {
@@ -274,9 +295,11 @@ pub fn replay_paths(input: &Value) -> (bool, String) {
     let id = input["id"].as_str().unwrap_or("");
     for (name, b) in bundles() {
         if name == want {
-            for interned in [false, true] {
-                let (_, fails) = check_bundle(&name, &b, interned);
-                for (fid, m) in fails { if fid == id { return (true, format!("bundle {fid}: {m}")); } }
+            for strict in [true, false] {
+                for interned in [false, true] {
+                    let (_, fails) = check_bundle(&name, &b, interned, strict);
+                    for (fid, m) in fails { if fid == id { return (true, format!("bundle {fid}: {m}")); } }
+                }
             }
             return (false, format!("bundle {want}: paths agree"));
         }
